@@ -236,10 +236,8 @@ partial def pX : P X
       let (_, ts) ← expect ")" ts
       pure (.lazy o n x, ts)
   | "(" :: "objF" :: ts => pObjF ts
-  -- `( mapF ( str CK* ) S SZ* )` = Map(String()<CK*>, S)<SZ*>; `mapf`: the same schema on a tree whose convertMap drops
-  -- the key schema (before the fix C07-map-key-schema; probed by the harness)
+  -- `( mapF ( str CK* ) S SZ* )` = Map(String()<CK*>, S)<SZ*>
   | "(" :: "mapF" :: "(" :: "str" :: ts => pMapOf ts
-  | "(" :: "mapf" :: "(" :: "str" :: ts => pMapOf ts
   | ts => do let (s, ts) ← pS ts; pure (.base s, ts)
 
 /-! ### rendering the model's document as canonical JSON (sorted keys, exact numbers) -/
@@ -527,8 +525,8 @@ def instLineX (lg : Bool) (x : X) (v : Json) : String :=
 def convertX (lg : Bool) (o : Opts) (dup : Bool) (x : X) : Option JS :=
   if o.cyclesThrow && dup then none else some (docX lg x)
 
-/-- the harness writes `mapf` on a tree whose convertMap drops the key schema. -/
-def isLegacy (ts : List String) : Bool := ts.contains "mapf"
+/-- the converters of objects (/repo 792c820) and maps (/repo 39b1e2e) are modelled as fixed: no legacy document. -/
+def isLegacy (_ts : List String) : Bool := false
 
 /-! ### the recursive family `( recV WRAP LEAF )` (Model/JsonSchemaRec.lean); `recv` = the tree's convertLazy answers a
     cycle that does not close at the root with `{"$ref":"#"}` (before the fix C07-lazy-ref-nonroot; probed) -/
